@@ -264,6 +264,11 @@ class SetAlg:
         h = t[0]
         if self._is_empty(t):
             return False
+        if h == "meth" and t[2] == "nodes" and not t[3] and not t[4] and is_term(t[1]) and t[1][0] in ("var", "attr"):
+            # `x in G.nodes()` and `x in G` ask the same of a graph object (networkx graphs; NxMixedGraph.__contains__, held to it by C14)
+            return self.member(e, t[1])
+        if h == "V" and len(t) == 2 and is_term(t[1]) and t[1][0] in ("var", "attr"):
+            return self.member(e, t[1])  # the node set of a graph object, as the graph denotations write it
         if h == "union":
             parts = []
             for x in t[1:]:
@@ -1292,7 +1297,10 @@ def _discard_form(t: Term) -> Term:
     return ("accum", "effect", t[2], ("deep", path, "discard", t[3][3]), tuple(gens), t[5])
 
 
-EXTERNAL_SIGNATURES = {"groupby": ("iterable", "key"), "sorted": ("iterable", "key", "reverse"), "enumerate": ("iterable", "start")}
+EXTERNAL_SIGNATURES = {"groupby": ("iterable", "key"), "sorted": ("iterable", "key", "reverse"), "enumerate": ("iterable", "start"),
+                       # networkx (documented signatures; the graph stays positional)
+                       "all_simple_paths": ("G", "source", "target", "cutoff"), "has_path": ("G", "source", "target"),
+                       "ancestors": ("G", "source"), "descendants": ("G", "source"), "combinations": ("iterable", "r")}
 ITER_CONSUMERS = {"combinations", "permutations", "product", "chain", "from_iterable", "sorted", "enumerate", "zip", "sum", "min", "max",
                   "combinations_with_replacement", "reversed", "triplewise", "pairwise"}
 
